@@ -1,5 +1,5 @@
 """C14 - timestamps, ranges, copy sources keep their meaning through text (DESIGN.md section 3, C14)."""
-from .. import flow, guards, paths
+from .. import flow, guards, inline, paths
 from ..facts import callee_def, short
 from ..report import AnchorMissing
 from .c12 import is_decoder
@@ -117,16 +117,18 @@ def offset_kinds(b, op, at, seen=None, depth=0):
 
 
 def rule_r1(chk, db):
-    fmt = db.body(TS + "Timestamp::format")
+    fmt = inline.inlined(db, db.body(TS + "Timestamp::format"))
     if fmt is None:
         raise AnchorMissing("Timestamp::format not found")
     sinks = [(bi, t) for bi, t in fmt.calls() if short(callee_def(t)) in ("format_into", "format") and "time::" in callee_def(t)]
     chk.floor("R1", len(sinks), 2, "format_into sinks in Timestamp::format")
     # join over the writers of Timestamp.0
     writers = []
-    for b in db.grep("s3s::dto::timestamp::Timestamp"):
-        if b.crate != "s3s" or "dto::generated" in b.name:
-            continue
+    cands = [inline.inlined(db, b) for b in db.grep("s3s::dto::timestamp::Timestamp") if b.crate == "s3s" and "dto::generated" not in b.name]
+    helpers = {h for b in cands for h in getattr(b, "inlined_from", [])}
+    for b in cands:
+        if b.name in helpers:
+            continue        # studied as part of its caller
         for bi, si, st in b.stmts():
             rv = st["rv"]
             if rv["k"] == "agg" and rv.get("adt") == TS + "Timestamp":
@@ -160,8 +162,8 @@ def rule_r1(chk, db):
 
 def rule_r5(chk, db):
     """format selection: total switch, same description family on both sides"""
-    p = db.body(TS + "Timestamp::parse")
-    f = db.body(TS + "Timestamp::format")
+    p = inline.inlined(db, db.body(TS + "Timestamp::parse"))
+    f = inline.inlined(db, db.body(TS + "Timestamp::format"))
     if p is None or f is None:
         raise AnchorMissing("Timestamp::parse/format not found")
 
@@ -221,8 +223,8 @@ def rule_r5(chk, db):
 
 def rule_r2(chk, db):
     """copy source: the formatter is the inverse of the parser with respect to percent-coding"""
-    p = db.body("s3s::dto::copy_source::CopySource::parse")
-    f = db.body("s3s::dto::copy_source::CopySource::format_to_string")
+    p = inline.inlined(db, db.body("s3s::dto::copy_source::CopySource::parse"))
+    f = inline.inlined(db, db.body("s3s::dto::copy_source::CopySource::format_to_string"))
     if p is None or f is None:
         raise AnchorMissing("CopySource::parse / format_to_string not found")
     decs = [(bi, t) for bi, t in p.calls() if is_decoder(callee_def(t))]
@@ -255,7 +257,7 @@ def u64_bound(body, op):
 
 
 def rule_r3(chk, db):
-    b = db.body(RG + "Range::parse")
+    b = inline.inlined(db, db.body(RG + "Range::parse"))
     if b is None:
         raise AnchorMissing("Range::parse not found")
     I64MAX = (1 << 63) - 1
@@ -447,7 +449,7 @@ def upper_bound(b, op, at, F_local, depth=0, seen=None):
 
 
 def rule_r4(chk, db):
-    b = db.body(RG + "Range::check")
+    b = inline.inlined(db, db.body(RG + "Range::check"))
     if b is None:
         raise AnchorMissing("Range::check not found")
     F = None
